@@ -7,7 +7,8 @@
      loose   detached file nodes without creator (UNDECLARED inputs nobody declared yet)
      trees   attached static trees: label (with trailing slash) -> creator
      steps   attached steps: label -> creator
-     globs   registered patterns in registration order: (step label, pattern, recorded matches)
+     globs   registered patterns in registration order: (step label, pattern, subs, recorded
+             matches); a multiset keyed by (step, pattern, subs): rows are only ever appended
      sinks   input edges (path, consuming step), only used to name the consumer in a message
    Paths are strings (lists of code points) and all prefix tests are string prefix tests, as in
    the code (C18 proves that the SQL idioms are exact string prefix tests).
@@ -70,7 +71,20 @@ Definition creator_label (c : creator) : str :=
 
 Record claim := mkClaim { c_role : role; c_by : creator }.
 
-Record glob := mkGlob { g_step : str; g_pat : str; g_ms : list str }.
+(* One row of the `nglob` table: the registering step, the pattern text (printed in messages), the
+   substitution constraints of its named wildcards (`NamedGlob.subs`, sorted by name) and the
+   recorded matches. A step may register one pattern several times, with the same or with
+   different constraints: every registration is a row of its own (Step.add_nglob only INSERTs). *)
+Definition subs_t := list (str * str).
+
+Record glob := mkGlob { g_step : str; g_pat : str; g_subs : subs_t; g_ms : list str }.
+
+(* The key under which the stored regex of a registration is looked up in the abstract matcher:
+   convert_nglob_to_regex(pattern, subs) is a function of exactly these two values. *)
+Definition gkey (pat : str) (subs : subs_t) : str :=
+  pat ++ flat_map (fun ns : str * str => 0 :: fst ns ++ 0 :: snd ns) subs.
+
+Definition g_key (g : glob) : str := gkey (g_pat g) (g_subs g).
 
 Record state := mkState {
   claims : list (str * claim);
@@ -362,7 +376,7 @@ Fixpoint is_ancestor (fuel : nat) (sts : list (str * creator)) (l lbl : str) : b
 
 Section WithMatcher.
 
-Variable gmatch : str -> str -> bool.   (* pattern -> path -> does the stored regex fullmatch *)
+Variable gmatch : str -> str -> bool.   (* gkey pattern subs -> path -> does the stored regex fullmatch *)
 
 (* Two facts about the code that the translator reads from the source (gen/GenClaims.v:
    owner_appends_slash, glob_scans_products), so that the same model follows the code across the
@@ -523,19 +537,19 @@ Fixpoint first_product (st : state) (ms : list str) : option (str * claim) :=
               end
   end.
 
-Definition register_glob (s pat : str) (ms : list str) (st : state) : res state :=
+Definition register_glob (s pat : str) (subs : subs_t) (ms : list str) (st : state) : res state :=
   bind (require_step st (CStep s)) (fun _ =>
-  let ms' := sort_uniq (filter (gmatch pat) ms) in
+  let ms' := sort_uniq (filter (gmatch (gkey pat subs)) ms) in
   match (if gr
          then min_entry (filter (fun pc => negb (role_eqb (c_role (snd pc)) RStatic)
-                                           && gmatch pat (fst pc)) (claims st))
+                                           && gmatch (gkey pat subs) (fst pc)) (claims st))
          else first_product st ms') with
   | Some (p, cl) => Err (MGlobProduct pat s p (creator_label (c_by cl)))
   | None =>
       match find_first (is_prefix stepup_prefix) ms' with
       | Some p => Err (MStepupGlob pat p)
       | None => Ok (mkState (claims st) (loose st) (trees st) (steps st)
-                            (globs st ++ [mkGlob s pat ms']) (sinks st))
+                            (globs st ++ [mkGlob s pat subs ms']) (sinks st))
       end
   end).
 
@@ -544,7 +558,7 @@ Fixpoint glob_check (gs : list glob) (lbl : str) (ps : list str) : res unit :=
   match gs with
   | [] => Ok tt
   | g :: r =>
-      match find_first (gmatch (g_pat g)) ps with
+      match find_first (gmatch (g_key g)) ps with
       | Some p => Err (MGlobProduct (g_pat g) (g_step g) p lbl)
       | None => glob_check r lbl ps
       end
@@ -647,7 +661,7 @@ Definition amend_step (s : str) (inps outs vols : list str) (st : state) : res s
 Inductive req :=
   | RqStatic (c : creator) (ps : list str)
   | RqTree (c : creator) (path : str)
-  | RqGlob (s pat : str) (ms : list str)
+  | RqGlob (s pat : str) (subs : subs_t) (ms : list str)
   | RqDefine (c : creator) (lbl : str) (inps outs vols : list str)
   | RqAmend (s : str) (inps outs vols : list str).
 
@@ -655,7 +669,7 @@ Definition step (st : state) (r : req) : res state :=
   match r with
   | RqStatic c ps => bind (require_step st c) (fun _ => declare_static_files c st ps)
   | RqTree c path => register_tree c path st
-  | RqGlob s pat ms => register_glob s pat ms st
+  | RqGlob s pat subs ms => register_glob s pat subs ms st
   | RqDefine c lbl inps outs vols => define_step c lbl inps outs vols st
   | RqAmend s inps outs vols => amend_step s inps outs vols st
   end.
